@@ -438,6 +438,17 @@ def run_check(prop, tier):
 
     # -------- violations: group by (property, oracle), minimise, write replay, verify
     known = load_known()
+    # every open finding names the input that fails: it is executed in every run, so that the KNOWN-FINDING line is backed by an
+    # observation of this very run (and disappears by itself once the library is repaired)
+    for kn, kf in enumerate(known):
+        if kf.get('status') == 'open' and kf.get('property') == prop and kf.get('probe_scenario'):
+            pres = execute_guarded(engine, dict(kf['probe_scenario']))
+            if pres.get('harness'):
+                harness.append('known-finding probe: %s' % pres['harness'])
+            results[-1 - kn] = {'scenario': dict(kf['probe_scenario']), 'violations': pres['violations']}
+            for v in pres['violations']:
+                viols.append((-1 - kn, v))
+            stats['probe.known_finding_probes'] = stats.get('probe.known_finding_probes', 0) + 1
     groups = {}
     for idx, v in viols:
         if v['property'] != prop:
